@@ -408,6 +408,25 @@ for (nm, sig, want) in LOOKUPS:
         die("%s (minidump.rs) is no longer a lookup / iteration of the by-address table followed by the index into the stored vector:\n"
             "  expected: %s\n  source  : %s" % (nm, want, got))
 
+# MinidumpModuleList::read: the read-time filter in front of from_modules
+MR_ = "MinidumpModuleList::read (minidump.rs)"
+mlr = match("let mut offset = 0; let raw_modules: Vec<md::MINIDUMP_MODULE> = read_stream_list(&mut offset, bytes, endian)?; "
+            "let mut modules = Vec::with_capacity(raw_modules.len()); "
+            "for (module_index, raw) in raw_modules.into_iter().enumerate() { "
+            "if <z_l:opd> <z_op:cmp> <z_c:int> || <o_l:opd> as u64 <o_op:cmp> (u64::MAX <s_op:arith> <o_r:opd>) { "
+            "tracing::warn!( module_index, base = raw.base_of_image, size = raw.size_of_image, \"bad module image size\" ); continue; } "
+            "modules.push(MinidumpModule::read(raw, all, endian, system_info)?); } "
+            "Ok(MinidumpModuleList::from_modules(modules))",
+            block_after(mdsrc, r"fn read\(\s*bytes: &'a \[u8\],\s*all: &'a \[u8\],\s*endian: scroll::Endian,\s*system_info: Option<&MinidumpSystemInfo>,\s*\) -> Result<MinidumpModuleList, Error> \{", MR_), MR_)
+E_MLR = {"raw.size_of_image": "size", "raw.base_of_image": "base"}
+defs.append("(* %s: true = the raw module is skipped *)\n"
+            "Definition g_module_read_drop (p : profile) (base size : Z) : outcome bool :=\n"
+            "  if %s then Ret true\n"
+            "  else do t <- %s p 64 PANIC_G_MR_ARITH U64MAX %s; Ret %s.\n"
+            % (MR_, cmp_(mlr["z_op"], opd(E_MLR, mlr["z_l"], MR_), mlr["z_c"]), ARITH[mlr["s_op"]], opd(E_MLR, mlr["o_r"], MR_),
+               cmp_(mlr["o_op"], opd(E_MLR, mlr["o_l"], MR_), "t")))
+sites.append(("g_module_read_drop", MR_))
+
 # unloaded modules: sorted vector + filter(contains)
 UB = "MinidumpUnloadedModuleList::from_modules (minidump.rs)"
 ub = block_after(mdsrc, r"pub fn from_modules\(modules: Vec<MinidumpUnloadedModule>\) -> MinidumpUnloadedModuleList \{", UB)
@@ -437,16 +456,11 @@ Definition PANIC_G_RANGE_NEW : Z := 831.   (* range_map::Range::new: "Ranges mus
 Definition PANIC_G_MR_ARITH : Z := 832.    (* the `- 1` of a memory_range() (debug builds trap) *)
 Definition g_range_new (s e : Z) : outcome range := if s >? e then Panic PANIC_G_RANGE_NEW else Ret (s, e).
 
+%s
 (* the index-valued builders (from_modules / from_regions x4): (entry.memory_range(), index) pairs in vector order *)
-Definition g_build_indexed (ranges : list (option range)) : outcome (list (range * Z)) := %s.
-
-%s""" % ("\n".join("   %-40s <- %s" % s for s in sites), "g_build_traits Z.eqb (enumerate_from 0 ranges)",
-         "PLACEHOLDER")
-# g_build_indexed uses g_build_traits: emit it after the definitions
-head, _ = out.split("(* the index-valued builders", 1)
-out = head + "\n".join(defs) + "\n(* the index-valued builders (from_modules / from_regions x4): (entry.memory_range(), index) pairs in vector order *)\n" \
-    "Definition g_build_indexed (ranges : list (option range)) : outcome (list (range * Z)) :=\n" \
-    "  g_build_traits Z.eqb (enumerate_from 0 ranges).\n"
+Definition g_build_indexed (ranges : list (option range)) : outcome (list (range * Z)) :=
+  g_build_traits Z.eqb (enumerate_from 0 ranges).
+""" % ("\n".join("   %-40s <- %s" % x for x in sites), "\n".join(defs))
 os.makedirs(outdir, exist_ok=True)
 path = os.path.join(outdir, "C08Tables.v")
 try:
